@@ -441,30 +441,45 @@ def mkdirAllRun (s : Fs) : List Path → Except Err Fs
       | .ok s1 => mkdirAllRun s1 r
       | .error e => .error e
 
-/-- `remove_dir_contents_recursive` (entries visited in sorted order; the code's order is a
-    `HashSet` iteration order and is not observable through any replay function) -/
-def rmContents : Nat → Fs → Path → Except Err Fs
-  | 0, s, _ => .ok s
+/-- `remove_dir_contents_recursive`: works on the fs in place, so the removals done before a failure
+    stay (the state is returned together with the error).  Entries are visited in sorted order; the
+    code's order is a `HashSet` iteration order, observable only when a removal fails half way. -/
+def rmContents : Nat → Fs → Path → Fs × Option Err
+  | 0, s, _ => (s, none)
   | fuel + 1, s, path =>
     (dirEntryNames s path).foldl
       (fun acc name =>
-        match acc with
-        | .error e => .error e
-        | .ok s1 =>
+        match acc.2 with
+        | some _ => acc
+        | none =>
+          let s1 := acc.1
           let e := path ++ [name]
           if dirExists s1 e then
-            match rmContents fuel s1 e with
-            | .error er => .error er
-            | .ok s2 => rmdir s2 e
-          else if fileExists s1 e then unlink s1 e
-          else .ok s1)
-      (.ok s)
+            let r := rmContents fuel s1 e
+            match r.2 with
+            | some er => (r.1, some er)
+            | none =>
+              match rmdir r.1 e with
+              | .ok s2 => (s2, none)
+              | .error er => (r.1, some er)
+          else if fileExists s1 e then
+            match unlink s1 e with
+            | .ok s2 => (s2, none)
+            | .error er => (s1, some er)
+          else (s1, none))
+      (s, none)
 
-def rmdirAll (s : Fs) (p : Path) : Except Err Fs :=
-  if !(dirExists s p) then .error .notfound
-  else match rmContents 8 s p with
-    | .error e => .error e
-    | .ok s1 => rmdir s1 p
+/-- `remove_dir_all` -/
+def rmdirAll (s : Fs) (p : Path) : Fs × Option Err :=
+  if !(dirExists s p) then (s, some .notfound)
+  else
+    let r := rmContents 8 s p
+    match r.2 with
+    | some e => (r.1, some e)
+    | none =>
+      match rmdir r.1 p with
+      | .ok s2 => (s2, none)
+      | .error e => (r.1, some e)
 
 /-- one shim call -/
 def step (cfg : Cfg) (st : St) (op : Op) (ora : Ora) : St × Obs :=
@@ -538,7 +553,9 @@ def step (cfg : Cfg) (st : St) (op : Op) (ora : Ora) : St × Obs :=
   | .mkdir p => ofExcept st (mkdir st.fs p)
   | .mkdirAll p => ofExcept st (mkdirAllRun st.fs (mkdirAllCollect st.fs 16 p).reverse)
   | .rmdir p => ofExcept st (rmdir st.fs p)
-  | .rmdirAll p => ofExcept st (rmdirAll st.fs p)
+  | .rmdirAll p =>
+    let r := rmdirAll st.fs p
+    ({ st with fs := r.1 }, match r.2 with | none => .ok | some e => .err e)
   | .unlink p => ofExcept st (unlink st.fs p)
   | .rename p q => ofExcept st (rename st.fs p q)
   | .syncDir p => ofExcept st (syncDir st.fs p)
